@@ -19,13 +19,14 @@ LEVEL_TEXT = (
 LEVEL_NOTE = 'trusts: the validity table in this file (cells where the RFCs are arguable are marked None and only judged for "no exception, one verdict, values as written if accepted") and the reference codec'
 DESIGN_REF = 'DESIGN.md section 5, C18'
 RULE = (
-    'plan = 2 session kinds x 5-40 definitions, each a base route with one boundary-valued field; a subset is also offered through a '
+    'plan = 2 session kinds x 5-40 definitions (route, flow, vpls or attributes...nlri), each with one boundary-valued field; a subset is also offered through a '
     'configuration reload; non-trivial = at least one definition at or beyond a boundary was judged on both paths; distinct = digests of '
     '(kinds, definitions); the field x value grid is enumerated once per tier'
 )
 ASSUMPTIONS = [
     'AS 0 and attribute sets larger than one message are not judged for acceptance (arguable), only for the absence of exceptions and of session loss',
-    'an API error reply whose text reports an unexpected exception (the handlers\' catch-all) counts as an unhandled exception',
+    'an API error reply whose text reports an unexpected exception (the handlers\' catch-all) counts as an unhandled exception, and so does any exception other than ValueError / configuration Error / Notify reaching Configuration.reload()\'s catch-all',
+    'arguable and only judged for one verdict / no exception: a 2-byte fragment bitmask, an IPv6 flow prefix whose offset exceeds its length, a negative rate-limit (an IEEE float can hold it), a VPLS label block ending exactly at label 1048575',
 ]
 
 U32 = 4294967295
@@ -88,7 +89,59 @@ def fields():
     return f
 
 
+def more_fields(f: dict) -> None:
+    """flow, vpls and `attributes ... nlri` definitions (the property names them next to routes)"""
+    from refbgp import flow as FL
+
+    d0 = [FL.ec_rate_bytes(0, 0.0).hex()]
+
+    def num(t, v, **kw):
+        return [t, [[False, kw.get('lt', False), kw.get('gt', False), kw.get('eq', True), v, None]]]
+
+    src4 = [2, ['10.0.0.1', 32, 0]]
+    f['flow'] = [
+        (('destination 10.0.0.1/32;', 'discard;'), True, {'kind': 'flow', 'afi': 1, 'comps': [[1, ['10.0.0.1', 32, 0]]], 'ecs': d0}),
+        (('destination 10.0.0.0/33;', 'discard;'), False, None), (('source 10.0.0.256/32;', 'discard;'), False, None), (('source 10.0.0.0/-1;', 'discard;'), False, None),
+        (('destination-port =65535;', 'discard;'), True, {'kind': 'flow', 'afi': 1, 'comps': [num(5, 65535)], 'ecs': d0}), (('destination-port =65536;', 'discard;'), False, None),
+        (('destination-port =-1;', 'discard;'), False, None), (('source-port >=0&<=65535;', 'discard;'), True, {'kind': 'flow', 'afi': 1, 'comps': [[6, [[False, False, True, True, 0, None], [True, True, False, True, 65535, None]]]], 'ecs': d0}),
+        (('port =banana;', 'discard;'), False, None), (('protocol =255;', 'discard;'), True, {'kind': 'flow', 'afi': 1, 'comps': [num(3, 255)], 'ecs': d0}), (('protocol =256;', 'discard;'), False, None),
+        (('packet-length =65535;', 'discard;'), True, {'kind': 'flow', 'afi': 1, 'comps': [num(10, 65535)], 'ecs': d0}), (('packet-length =65536;', 'discard;'), False, None),
+        (('dscp =63;', 'discard;'), True, {'kind': 'flow', 'afi': 1, 'comps': [num(11, 63)], 'ecs': d0}), (('dscp =64;', 'discard;'), False, None),
+        (('icmp-type =255;', 'discard;'), True, {'kind': 'flow', 'afi': 1, 'comps': [num(7, 255)], 'ecs': d0}), (('icmp-type =256;', 'discard;'), False, None),
+        (('icmp-code =255;', 'discard;'), True, {'kind': 'flow', 'afi': 1, 'comps': [num(8, 255)], 'ecs': d0}), (('icmp-code =256;', 'discard;'), False, None),
+        (('tcp-flags [ 0xff ];', 'discard;'), True, {'kind': 'flow', 'afi': 1, 'comps': [[9, [[False, False, False, 255, None]]]], 'ecs': d0}), (('tcp-flags [ 0x10000 ];', 'discard;'), False, None),
+        (('fragment [ 0xf ];', 'discard;'), True, {'kind': 'flow', 'afi': 1, 'comps': [[12, [[False, False, False, 15, None]]]], 'ecs': d0}), (('fragment [ 0x100 ];', 'discard;'), None, None),
+        (('destination 2001:db8::/128/0;', 'discard;'), True, {'kind': 'flow', 'afi': 2, 'comps': [[1, ['2001:db8::', 128, 0]]], 'ecs': d0}), (('destination 2001:db8::/129/0;', 'discard;'), False, None),
+        (('destination 2001:db8::/64/65;', 'discard;'), None, None), (('source 2001:db8::/32/0; flow-label =1048575;', 'discard;'), True, {'kind': 'flow', 'afi': 2, 'comps': [[2, ['2001:db8::', 32, 0]], num(13, 1048575)], 'ecs': d0}),
+        (('source 2001:db8::/32/0; flow-label =1048576;', 'discard;'), False, None), (('source 10.0.0.1/32; flow-label =5;', 'discard;'), False, None),
+        (('source 10.0.0.1/32;', 'rate-limit 0;'), True, {'kind': 'flow', 'afi': 1, 'comps': [src4], 'ecs': d0}), (('source 10.0.0.1/32;', 'rate-limit -1;'), None, None), (('source 10.0.0.1/32;', 'rate-limit banana;'), False, None),
+        (('source 10.0.0.1/32;', f'redirect 65535:{U32};'), True, {'kind': 'flow', 'afi': 1, 'comps': [src4], 'ecs': [FL.ec_redirect_as2(65535, U32).hex()]}), (('source 10.0.0.1/32;', f'redirect 65535:{U32 + 1};'), False, None),
+        (('source 10.0.0.1/32;', 'redirect 65536:65535;'), True, {'kind': 'flow', 'afi': 1, 'comps': [src4], 'ecs': [FL.ec_redirect_as4(65536, 65535).hex()]}), (('source 10.0.0.1/32;', 'redirect 65536:65536;'), False, None),
+        (('source 10.0.0.1/32;', f'redirect {U32 + 1}:1;'), False, None), (('source 10.0.0.1/32;', 'mark 63;'), True, {'kind': 'flow', 'afi': 1, 'comps': [src4], 'ecs': [FL.ec_mark(63).hex()]}),
+        (('source 10.0.0.1/32;', 'mark 64;'), False, None), (('source 10.0.0.1/32;', 'mark -1;'), False, None), (('source 10.0.0.1/32;', 'action frobnicate;'), False, None),
+        (('source 10.0.0.1/32;', 'action sample-terminal;'), True, {'kind': 'flow', 'afi': 1, 'comps': [src4], 'ecs': [FL.ec_action(True, True).hex()]}),
+    ]  # fmt: skip
+
+    def vp(e=5, b=10702, o=1, sz=8, rd='65000:1'):
+        return f'rd {rd} endpoint {e} base {b} offset {o} size {sz} next-hop 10.0.0.9'
+
+    def vexp(e=5, b=10702, o=1, sz=8):
+        return {'kind': 'vpls', 've': e, 'base': b, 'offset': o, 'size': sz}
+
+    f['vpls'] = [
+        (vp(), True, vexp()), (vp(e=65535), True, vexp(e=65535)), (vp(e=65536), False, None), (vp(e=-1), False, None), (vp(o=65535), True, vexp(o=65535)), (vp(o=65536), False, None),
+        (vp(sz=65535), True, vexp(sz=65535)), (vp(sz=65536), False, None), (vp(b=1048574, sz=1), True, vexp(b=1048574, sz=1)), (vp(b=1048575, sz=1), None, vexp(b=1048575, sz=1)), (vp(b=1048576, sz=1), False, None), (vp(b='banana'), False, None),
+        (vp(rd='65536:65536'), False, None), (vp(rd='banana'), False, None),
+    ]  # fmt: skip
+    f['attributes'] = [
+        (f'med {U32}', True, {'kind': 'attributes', 'attrs': {'med': U32}}), (f'med {U32 + 1}', False, None), ('local-preference -1', False, None),
+        ('community [ 65535:65535 ]', True, {'kind': 'attributes', 'attrs': {'comm': [[65535, 65535]]}}), ('community [ 65536:0 ]', False, None),
+        (f'as-path [ {U32} ]', True, {'kind': 'attributes', 'attrs': {'aspath': [[2, [U32]]]}}), (f'as-path [ {U32 + 1} ]', False, None), ('origin sideways', False, None),
+    ]  # fmt: skip
+
+
 FIELDS = fields()
+more_fields(FIELDS)
 CELLS = [(name, i) for name, vals in FIELDS.items() for i in range(len(vals))]
 
 
@@ -150,6 +203,28 @@ def definition(cell, n: int):
                     over[k] = v
         else:
             over = None
+    if name == 'flow':
+        # one NLRI per definition (the same rule entered again would replace the earlier one)
+        uniq = f'10.0.{n % 250}.1'
+        m = tok[0].replace('10.0.0.1/32', uniq + '/32')
+        if over is not None:
+            over = jclone(over)
+            for c in over['comps']:
+                if c[0] in (1, 2) and c[1][0] == '10.0.0.1':
+                    c[1][0] = uniq
+            if not any(c[0] in (1, 2) for c in over['comps']):
+                # no prefix in the cell: add a distinguishing source prefix
+                m = f'source {uniq}/32; ' + m if over['afi'] == 1 else m
+                if over['afi'] == 1:
+                    over['comps'].append([2, [uniq, 32, 0]])
+        return 'flow route { match { ' + m + ' } then { ' + tok[1] + ' } }', valid, over
+    if name == 'vpls':
+        return 'vpls ' + tok, valid, over
+    if name == 'attributes':
+        r2 = None
+        if over is not None:
+            r2 = {'kind': 'attributes', 'routes': [{'fam': 'v4u', 'p': f'10.77.{n}.0/24', 'nh': '10.0.0.9', 'attrs': dict(over['attrs'])}, {'fam': 'v4u', 'p': f'10.78.{n}.0/24', 'nh': '10.0.0.9', 'attrs': dict(over['attrs'])}]}
+        return f'attributes next-hop 10.0.0.9 {tok} nlri 10.77.{n}.0/24 10.78.{n}.0/24', valid, r2
     base = {'fam': 'v4u', 'p': f'10.77.{n}.0/24', 'nh': '10.0.0.9', 'attrs': {'med': 1000 + n}}
     if name in ('mask4', 'mask6'):
         text = f'route {tok} next-hop {"2001:db8::9" if name == "mask6" else "10.0.0.9"} med {1000 + n}'
@@ -175,8 +250,14 @@ def definition(cell, n: int):
 def execute(plan: dict) -> dict:
     w = make_world(plan)
     kinds = plan['kinds']
-    speakers = [Speaker(w, f'p{k["idx"]}', k['peer_ip'], k['peer_as'], k['peer_ip'], RT.LOCAL, hold=180, caps=speaker_caps(RT.kind_speaker_spec(k))) for k in kinds]
+    more = [(1, 133), (2, 133), (25, 65)]
+    specs = [RT.kind_speaker_spec(k) for k in kinds]
+    for sp_ in specs:
+        sp_['families'] = list(sp_['families']) + more
+    speakers = [Speaker(w, f'p{k["idx"]}', k['peer_ip'], k['peer_as'], k['peer_ip'], RT.LOCAL, hold=180, caps=speaker_caps(sp_)) for k, sp_ in zip(kinds, specs)]
     base_conf = [RT.kind_conf(k) for k in kinds]
+    for c in base_conf:
+        c['families'] = list(c['families']) + more
     w.boot(config_text([{'name': 'h1'}], base_conf))
     h = w.procs.helper('h1')
     defs = [definition(tuple(c), n) for n, c in enumerate(plan['cells'])]
@@ -218,7 +299,7 @@ def execute(plan: dict) -> dict:
                 st['verdicts'].append(verdict)
                 msg = error_text_since(st['l0'])
                 name = plan['cells'][st['i'] - 1][0]
-                if 'Unexpected error' in msg or 'Traceback' in msg:
+                if ('Unexpected error' in msg and 'Unexpected error: Notify' not in msg) or 'Traceback' in msg:
                     violations.append(viol('C18/exception-on-api', f'`{text[:160]}` was answered with an exception: {msg[:260]}', field=name, value=_val(plan['cells'][st['i'] - 1])))
                 elif valid is True and verdict != 'done':
                     violations.append(viol('C18/valid-definition-refused', f'`{text[:200]}` is valid per the RFCs but the API answered {verdict}: {msg[:200]}', field=name, value=_val(plan['cells'][st['i'] - 1])))
@@ -258,7 +339,14 @@ def execute(plan: dict) -> dict:
                 return
             text, valid, r = defs[st['ci']]
             confs = [dict(c) for c in base_conf]
-            confs[0] = dict(confs[0], static=[text])
+            if text.startswith('route '):
+                confs[0] = dict(confs[0], static=[text])
+            elif text.startswith('flow route '):
+                confs[0] = dict(confs[0], extra=['flow {', '    route cfg ' + text[len('flow route '):], '}'])
+            else:
+                st['ci'] += 1  # vpls / attributes: API only
+                w.after(0.01, driver)
+                return
             w.set_config(config_text([{'name': 'h1'}], confs))
             st['nreload'] = len(w.reload_log)
             st['logs0'] = len(w.logs)
@@ -276,8 +364,9 @@ def execute(plan: dict) -> dict:
                 api_verdict = None if conf_only else st['verdicts'][st['ci']]
                 conf_verdict = 'done' if rec['result'] is True else 'error'
                 err = rec.get('error', '')
-                if rec['result'] is not True and ('problem parsing configuration file' in err or str(rec['result']).startswith('raise')):
-                    violations.append(viol('C18/exception-in-configuration', f'`{text[:160]}` in a configuration file escaped the parser as an exception: {err[:220]}', field=name, value=_val(plan['cells'][st['ci']])))
+                # a ValueError / configuration Error / Notify is the parser refusing the text; anything else reaching reload()'s catch-all is an exception
+                if rec['result'] is not True and (str(rec['result']).startswith('raise') or rec.get('exc') not in (None, 'ValueError', 'Error', 'Notify')):
+                    violations.append(viol('C18/exception-in-configuration', f'`{text[:160]}` in a configuration file escaped the parser as {rec.get("exc") or rec["result"]}: {err[:200]}', field=name, value=_val(plan['cells'][st['ci']])))
                 elif conf_only and valid is True and conf_verdict != 'done':
                     violations.append(viol('C18/valid-definition-refused', f'`{text[:200]}` is valid per the RFCs but the configuration parser refused it: {err[:200]}', field=name, value=_val(plan['cells'][st['ci']])))
                 elif conf_only and valid is False and conf_verdict != 'error':
@@ -301,14 +390,72 @@ def execute(plan: dict) -> dict:
             if sess.decode_errors:
                 violations.append(viol('C18/undecodable-update', f'{_kd(k)}: {sess.decode_errors[0][:300]}'))
                 return
+            flows, vpls = wire_extras(sess)
             for (text, valid, r), verdict, cell in zip(defs, st['verdicts'], plan['cells']):
                 if verdict != 'done' or r is None:
                     continue
-                for key, val in RT.expected_routes(r, k):
+                if r.get('kind') == 'flow':
+                    from refbgp import flow as FL
+
+                    ref = {'rd': None, 'comps': [(t, tuple(p) if t in (1, 2) else [tuple(it[:-1]) + (FL.shortest_width(it[-2]),) for it in p]) for t, p in sorted(r['comps'], key=lambda c: c[0])]}
+                    key = (r['afi'], FL.canon(ref, widths=True))
+                    if key not in flows:
+                        violations.append(viol('C18/accepted-but-not-sent-as-written', f'{_kd(k)}: `{text[:160]}` was accepted; no FlowSpec NLRI decoding to {key[1]!r} arrived (arrived: {[kk[1] for kk in flows][:2]!r})'[:600], field=cell[0], value=_val(cell)))
+                        return
+                    if not set(r['ecs']) <= flows[key]:
+                        violations.append(viol('C18/accepted-but-not-sent-as-written', f'{_kd(k)}: `{text[:160]}` was accepted; action communities {sorted(flows[key])}, expected {r["ecs"]}', field=cell[0], value=_val(cell)))
+                        return
+                    continue
+                if r.get('kind') == 'vpls':
+                    want = (r['ve'], r['offset'], r['size'], r['base'])
+                    if want not in vpls:
+                        violations.append(viol('C18/accepted-but-not-sent-as-written', f'{_kd(k)}: `{text[:160]}` was accepted; no VPLS NLRI (endpoint, offset, size, base) = {want} arrived (arrived: {sorted(vpls)[:3]})', field=cell[0], value=_val(cell)))
+                        return
+                    continue
+                routes = r['routes'] if r.get('kind') == 'attributes' else [r]
+                for r1 in routes:
+                  for key, val in RT.expected_routes(r1, k):
                     d = RT.diff_entry(sess.table.routes.get(key), val)
                     if d:
                         violations.append(viol('C18/accepted-but-not-sent-as-written', f'{_kd(k)}: `{text[:160]}` was accepted; {key}: {d}', field=cell[0], value=_val(cell)))
                         return
+
+    def wire_extras(sess):
+        """FlowSpec rules (with their extended communities) and VPLS NLRI found in the UPDATEs of a session"""
+        from refbgp import flow as FL
+
+        flows: dict = {}
+        vpls: set = set()
+        for t, body, d in sess.updates:
+            try:
+                wd, attrs, nlri = R.split_update(body)
+                alist = R.split_attributes(attrs)
+            except R.RefError:
+                continue
+            ecs = set()
+            for f_, c, v in alist:
+                if c == R.A_EXT_COMMUNITY:
+                    ecs |= {v[i : i + 8].hex() for i in range(0, len(v), 8)}
+            for f_, c, v in alist:
+                if c != R.A_MP_REACH or len(v) < 5:
+                    continue
+                afi, safi, nhl = int.from_bytes(v[:2], 'big'), v[2], v[3]
+                raw = v[4 + nhl + 1 :]
+                if safi == 133:
+                    try:
+                        for rule in FL.dec_all(raw, afi, False):
+                            flows[(afi, FL.canon(rule, widths=True))] = ecs
+                    except R.RefError:
+                        flows[(afi, ('undecodable', raw.hex()[:60]))] = ecs
+                elif (afi, safi) == (25, 65):
+                    p = 0
+                    while p + 2 <= len(raw):
+                        ln = int.from_bytes(raw[p : p + 2], 'big')
+                        one = raw[p + 2 : p + 2 + ln]
+                        p += 2 + ln
+                        if len(one) == 17:
+                            vpls.add((int.from_bytes(one[8:10], 'big'), int.from_bytes(one[10:12], 'big'), int.from_bytes(one[12:14], 'big'), int.from_bytes(one[14:17], 'big') >> 4))
+        return flows, vpls
 
     w.at(2.0, driver)
     w.run(until=400.0)
@@ -317,7 +464,7 @@ def execute(plan: dict) -> dict:
 
 
 def _val(cell) -> str:
-    return ' + '.join(FIELDS[cell[j]][cell[j + 1]][0][:50] for j in range(0, len(cell), 2))
+    return ' + '.join(str(FIELDS[cell[j]][cell[j + 1]][0])[:60] for j in range(0, len(cell), 2))
 
 
 def _kd(k: dict) -> str:
